@@ -267,7 +267,7 @@ template<typename T, bool OW> void enumerate(bool tracked, int cap, int depth, S
 
 void explore() {
     bool tracked = opt.property == "C09";
-    int maxcap = thorough() ? 7 : 5;
+    int maxcap = thorough() ? 8 : 6;
     std::set<std::string> seen; Stats st;
     if (tracked) { bfs<Tracked, false>(true, maxcap, seen, st); bfs<Tracked, true>(true, maxcap, seen, st); }
     else { bfs<int, false>(false, maxcap, seen, st); bfs<int, true>(false, maxcap, seen, st); }
